@@ -337,7 +337,7 @@ func c12Run(c *Ctx) {
 		c.Count("default")
 	}
 	for _, t := range []string{"v", "e", "m"} {
-		for _, s := range []string{"0", "1"} {
+		for _, s := range []string{"0", "1", "2", "3"} { // filter, vlan, key absent, some other string
 			for _, tr := range []string{"0", "1"} {
 				ops = append(ops, fmt.Sprintf("nc.dp %s %s %s", t, s, tr))
 			}
@@ -427,7 +427,7 @@ func c12Run(c *Ctx) {
 			for _, conf := range strings.Fields(out) {
 				p := strings.Split(conf, ";")
 				es = append(es, p[6]+":"+p[7])
-				ops = append(ops, fmt.Sprintf("nc.parse %s %s %s %d %d %d %d %s", Pick(r, []string{"e", "m"}), b01(r.Bool()), hexStr("eth0"),
+				ops = append(ops, fmt.Sprintf("nc.parse %s %s %s %d %d %d %d %s", Pick(r, []string{"e", "m"}), Pick(r, []string{"0", "1", "1", "2", "2", "3"}), hexStr("eth0"),
 					Pick(r, []int{0, 0, 1000, 1 << 20}), Pick(r, []int{0, 500, 1 << 22}), Pick(r, []int{0, 0, 7, 8000, 1 << 25}), Pick(r, []int{0, 0, 8, 123456}), conf))
 				c.Count("parse")
 			}
@@ -441,7 +441,7 @@ func c12Run(c *Ctx) {
 	for i := 0; i < c.Scale(100, 2000); i++ {
 		conf := strings.Join([]string{"0a000005", Pick(r, []string{"bad", "-", "0a000000/24"}), Pick(r, []string{"-", "0a0000fd"}), "-", Pick(r, []string{"-", "bad"}), "-",
 			"-", "1", Pick(r, []string{"-", "4:0a0a0000/16", "6:fd010000000000000000000000000000/96"}), "-", b01(r.Bool()), "3"}, ";")
-		ops = append(ops, fmt.Sprintf("nc.parse m %s %s 1 2 3 4 %s", b01(r.Bool()), hexStr("eth0"), conf))
+		ops = append(ops, fmt.Sprintf("nc.parse m %s %s 1 2 3 4 %s", Pick(r, []string{"0", "1", "2", "3"}), hexStr("eth0"), conf))
 		c.Count("parse-malformed")
 	}
 	outs := c12Exec(c, ops)
